@@ -361,12 +361,15 @@ class Expectation:
         for actual, matches in zip(by_kind["H"], fits):
             if not matches:
                 problems.append(f"hybrid candidate {sorted(actual)} is no share-group plus contained cores")
-        if len(by_kind["H"]) != len(self.hybrids) or not any(
-                all(perm[a] in fits[a] for a in range(len(fits)))
-                for perm in itertools.permutations(range(len(self.hybrids)), len(fits))):
-            if not problems:
-                problems.append("the hybrid candidates do not correspond one-to-one to the share groups "
-                                + str([(sorted(must), sorted(may)) for must, may in self.hybrids]))
+        # every share group must be represented by a hybrid candidate that fits it and every
+        # hybrid candidate must represent a share group (two share groups lying inside each
+        # other's core span may legitimately end up as one and the same candidate)
+        choices = [[a for a in range(len(fits)) if n in fits[a]] for n in range(len(self.hybrids))]
+        valid = all(choices) and any(set(pick) == set(range(len(fits)))
+                                     for pick in itertools.product(*choices)) if self.hybrids else not fits
+        if not valid and not problems:
+            problems.append("the hybrid candidates do not match the share groups "
+                            + str([(sorted(must), sorted(may)) for must, may in self.hybrids]))
         results.append(("hybrid-groups-exact", not problems,
                         "; ".join(problems) + f" | hybrids found {[sorted(a) for a in by_kind['H']]}"))
 
@@ -581,6 +584,14 @@ def _is_promotion(clause: str, case: Dict[str, Any]) -> bool:
             if RANK[other_kind] <= RANK[kind] and other != members and not other < members and \
                     not members < other and same_span and clause in (KIND_CLAUSE[kind], KIND_CLAUSE[other_kind]):
                 return True      # two different groups (e.g. two hybrids) with one span are folded too
+    if clause == KIND_CLAUSE["H"]:
+        # two share groups whose hybrids (with or without the optional members) have one span
+        variants = [[must, must | may] for must, may in expectation.hybrids]
+        for a in range(len(variants)):
+            for b in range(a + 1, len(variants)):
+                if any(_union(expectation.extents, x) == _union(expectation.extents, y)
+                       for x in variants[a] for y in variants[b]):
+                    return True
     return False
 
 
@@ -887,9 +898,10 @@ def _is_bisect_window(clause: str, case: Dict[str, Any]) -> bool:
 
 def _is_tie_order(clause: str, case: Dict[str, Any]) -> bool:
     """F9: order-independent with >= 5 protoclusters of which two have identical extents (a tie in
-    the record's ordering, resolved by the order of supply) and at least 3 sharing pairs: which
-    sharing pairs the single-pass merge (C05-F2) joins depends on the tie order."""
-    if _plain(clause) != "order-independent" or len(case["protos"]) < 5 or len(case["share"]) < 3:
+    the record's ordering, resolved by the order of supply) and some defining genes are shared:
+    which sharing pairs the single-pass merge (C05-F2) joins, and which of the tied protoclusters is
+    folded into a candidate (C05-F1), depends on the tie order."""
+    if _plain(clause) != "order-independent" or len(case["protos"]) < 5 or not case["share"]:
         return False
     extents = [tuple(extent) for _, extent in case["protos"]]
     return len(set(extents)) < len(extents)
@@ -899,11 +911,17 @@ def _is_compound(clause: str, case: Dict[str, Any]) -> bool:
     """F10: >= 5 protoclusters (beyond the bound up to which F1-F9 were delimited clause by
     clause): the defects compound - a split or folded group changes what every later pass sees -
     so for the kind clauses, singles-exact and order-independent the class is only "the input
-    shows the feature of at least one of F1-F9 (for whatever clause)"."""
+    shows the feature of at least one of F1-F9 (for whatever clause), or has two or more share
+    groups, or - on a ring - a share group together with an origin-crossing core"."""
     plain = _plain(clause)
     if len(case["protos"]) < 5 or plain not in list(KIND_CLAUSE.values()) + ["singles-exact", "order-independent"]:
         return False
     probes = list(KIND_CLAUSE.values()) + ["singles-exact", "location-is-span-of-members"]
+    if len({tuple(sorted(pair)) for pair in case["share"]}) >= 2 and \
+            len(Expectation(case, _declared_sharing(case)).share_groups) >= 2:
+        return True       # two or more chemical hybrids interacting (folding, mutual containment)
+    if case["circ"] and case["share"] and any(spans_origin(core) for core, _ in case["protos"]):
+        return True       # the cross-origin interleaved pass working on hybrids (cf. C05-F6)
     for predicate in (_is_promotion, _is_merge, _is_bridging, _is_over_cover, _is_single_key,
                       _is_cross_origin_subset, _is_whole_ring_core, _is_bisect_window):
         if any(predicate(probe, case) for probe in probes):
